@@ -83,7 +83,7 @@ pub fn request_params_at(kind: &str, uri: &str, line: usize, character: usize) -
 
 /// Waits for a response; a timeout only counts as a deadlock with evidence that every server
 /// thread is blocked. Err(Some(failure)) = deadlock, Err(None) = inconclusive.
-pub fn await_or_diagnose(c: &mut Client, id: i64, what: &str, patience: Duration) -> Result<Value, Option<Failure>> {
+pub fn await_or_diagnose(c: &mut Client, id: i64, what: &str, patience: Duration, sched: &Sched) -> Result<Value, Option<Failure>> {
     let mut waited = Duration::ZERO;
     let step = Duration::from_millis(400);
     loop {
@@ -113,6 +113,15 @@ pub fn await_or_diagnose(c: &mut Client, id: i64, what: &str, patience: Duration
                     }
                     let (still, later) = all_blocked(&c.thread_tag, 4, Duration::from_millis(40));
                     blocked = still && crate::lspc::same_standstill(&later, &states);
+                    // a main loop that waits for input has nothing to do. If no task is alive either (every one
+                    // that was spawned has reported its end), the server owes nothing: the answer is on its way
+                    // to this client's own reader thread, which a loaded machine may starve for seconds
+                    if blocked && states.iter().any(|t| t.wchan.contains("ep_poll")) {
+                        let st = sched.st.lock().unwrap();
+                        if st.spawned == st.ended {
+                            blocked = false;
+                        }
+                    }
                 }
                 if blocked && waited >= Duration::from_millis(800) {
                     let dump: Vec<String> = states.iter().map(|t| format!("tid {} state {} syscall {} wchan {}", t.tid, t.state, t.syscall, t.wchan.trim())).collect();
@@ -146,7 +155,11 @@ fn run_burst(case: &Case) -> Verdict {
     let faulty = case["faulty"].as_bool() == Some(true);
     let fault = |v: i64| if faulty && v % 3 != 1 { "def broken : NoSuchClass;\ndef = ;\n" } else { "" };
     let mut c = Client::start(2);
+    // (uncontrolled: the scheduler only counts the tasks that are spawned and that end)
+    let sched = Sched::register(&c.thread_tag);
+    let tag = c.thread_tag.clone();
     if !c.initialize() {
+        Sched::unregister(&tag);
         c.shutdown();
         return Verdict::Skip("initialize-failed");
     }
@@ -244,7 +257,7 @@ fn run_burst(case: &Case) -> Verdict {
     }
     let mut verdict = Verdict::Pass { nontrivial: concurrent && !outstanding.is_empty(), labels: vec![] };
     for (id, what) in outstanding {
-        match await_or_diagnose(&mut c, id, &what, Duration::from_secs(30)) {
+        match await_or_diagnose(&mut c, id, &what, Duration::from_secs(30), &sched) {
             Ok(v) => {
                 if v.get("error").is_some() && v["error"]["code"].as_i64() != Some(-32800) {
                     // an error response is still a response; internal errors are C03's business
@@ -260,6 +273,7 @@ fn run_burst(case: &Case) -> Verdict {
             }
         }
     }
+    Sched::unregister(&tag);
     c.shutdown();
     verdict
 }
@@ -443,7 +457,7 @@ pub fn run_schedule(handler: &str, requests: &[String], choices: &[String]) -> R
     let (m, p) = request_params("foldingRange", &uris[0]);
     ids.push((c.send_request(&m, p), format!("{m} (barrier)")));
     for (id, what) in ids {
-        match await_or_diagnose(&mut c, id, &what, Duration::from_secs(20)) {
+        match await_or_diagnose(&mut c, id, &what, Duration::from_secs(20), &sched) {
             Ok(_) => {}
             Err(Some(f)) => return finish(c, steps, Outcome::Deadlock(f.detail), conc),
             Err(None) => return finish(c, steps, Outcome::Inconclusive(format!("no answer to {what}")), conc),
